@@ -57,7 +57,7 @@ var notCovered = map[string][]string{
 	"C01": {"that setString produced the value denoted by the text (string reasoning, see C14); Precision 0 outside [MinExponent, MaxExponent] (the property gives no rule)"},
 	"C02": {"Sqrt's 'Inexact iff the root is not exactly representable' (accuracy of the iteration, see C11); exact values of Rounded/Clamped (checked only through implications, as the property prescribes)"},
 	"C03": {"trap independence of the composite functions rests on the nil-error induction meta-argument (DESIGN 8.6)"},
-	"C04": {"that an error-free iteration of Ln's power series makes progress (error exit proved only); 'slow is not hang'; indexing and slicing of strings (their lengths are not modelled) in the parser; Decimal.Format (fmt.Formatter plumbing), Decimal/NullDecimal Scan and Value, the text produced; functions without contract are listed in DESIGN.md section 14"},
+	"C04": {"that an error-free iteration of Ln's power series makes progress (error exit proved only); 'slow is not hang'; the contents of strings (only their lengths are modelled: strlen of a string code, exact for constants, related through slicing, concatenation, conversion, strings.HasPrefix and strings.IndexByte); what a fmt.State, a database/sql source value or any other interface value does (interface method calls are unconstrained, type assertions with ok yield any value); the text produced; functions without contract are listed in DESIGN.md section 14"},
 	"C07": {"Sqrt/Cbrt/Exp/Ln/Pow inherit 'fits' from the contract of their final round call"},
 	"C16": {"text and byte results (String/Text/Append/Format/Marshal*/GobEncode/Bytes/FillBytes/Bits/Size) have no-panic and representation contracts only - the bytes produced are math/big's and are compared with math/big only by the bounded differential check; SetBits, SetBytes, Rand, the decoders, ModSqrt, ProbablyPrime are specified up to sign/range/representation, not value; And/Or/Xor/Not/Lsh/Sqrt/MulRange/Binomial/SetBit/GCD/ModInverse are proved against uninterpreted math/big operation functions (wrapper plumbing, aliasing, representation), not against a bit-level definition; the unsafe bridge (inner/updateInner) and math/big are assumed contracts, the bridge exercised by the bounded differential check (incl. negative zeros handed back by math/big)"},
 	"C17": {"Float64/SetFloat64 (strconv and floating point)"},
